@@ -267,6 +267,7 @@ type Exec struct {
 	Phis    map[string][]PhiArm // φ atom key → the values it abstracts, one per arm
 
 	lastCallRoots map[string]bool
+	Opaque        map[string]bool // roots whose stores are not forwarded (kept as versioned atoms)
 }
 
 type PhiArm struct {
@@ -463,7 +464,9 @@ func (x *Exec) loadCell(st *State, root string, idx []Poly) Poly {
 	for _, cv := range m {
 		if !provablyDistinct(cv.idx, idx) {
 			x.uniq++
-			return PAtom(cellAtom(root, -x.uniq, idx))
+			v := PAtom(cellAtom(root, -x.uniq, idx))
+			m[k] = cellVal{idx: idx, val: v} // later loads of the same cell see the same unknown
+			return v
 		}
 	}
 	// a store to a prefix / extension of this root may alias too
@@ -483,6 +486,10 @@ func (x *Exec) storeCell(st *State, root string, idx []Poly, val Poly) {
 			root = base + ".Index"
 			val = val.Sub(PInt(off))
 		}
+	}
+	if x.Opaque[root] {
+		x.killRoot(st, root)
+		return
 	}
 	m := st.cells[root]
 	if m == nil {
@@ -736,7 +743,7 @@ func (x *Exec) evalCall(st *State, call *ast.CallExpr, multi *[]Poly) Poly {
 	if cf != nil && cf.Pkg() != nil && cf.Pkg().Path() == "math" && pureMath[cf.Name()] {
 		switch cf.Name() {
 		case "Pow":
-			if n, ok := args[1].ConstInt(); ok && n >= -8 && n <= 8 {
+			if n, ok := args[1].ConstInt(); ok && n >= -8 && n <= 8 && (args[0].single() != nil || (n >= -2 && n <= 2) || (len(args[0].T) <= 2 && n <= 4 && n >= -4)) {
 				return args[0].PowInt(int(n))
 			}
 			return PCall("pow", args...)
@@ -1099,7 +1106,12 @@ func (x *Exec) merge(base *State, sts []*State, scope ast.Node) []*State {
 					m.cells[r] = ma
 				}
 				x.uniq++
-				ma[k] = cellVal{idx: idx, val: PAtom(cellAtom(r, -x.uniq, idx))}
+				ca := cellAtom(r, -x.uniq, idx)
+				if x.Phis == nil {
+					x.Phis = map[string][]PhiArm{}
+				}
+				x.Phis[ca.Key] = []PhiArm{{Val: a.val, Guards: mGuards, Has: okA}, {Val: b.val, Guards: o.guards, Has: okB}}
+				ma[k] = cellVal{idx: idx, val: PAtom(ca)}
 			}
 		}
 		for r, v := range o.ver {
@@ -1449,7 +1461,32 @@ func (x *Exec) assign(st *State, t *ast.AssignStmt) {
 	for i, l := range t.Lhs {
 		if i < len(vals) {
 			x.assignTo(st, l, vals[i], t, t.Tok == token.DEFINE)
+			if cl, ok := t.Rhs[i].(*ast.CompositeLit); ok {
+				x.litCells(st, l, cl, t)
+			}
 		}
+	}
+}
+
+// litCells models  v := []T{e0, e1, ...}  /  [n]T{...}  as stores v[i] = e_i.
+func (x *Exec) litCells(st *State, lhs ast.Expr, cl *ast.CompositeLit, s ast.Stmt) {
+	id, ok := lhs.(*ast.Ident)
+	if !ok {
+		return
+	}
+	switch x.Info.TypeOf(cl).Underlying().(type) {
+	case *types.Slice, *types.Array:
+	default:
+		return
+	}
+	for i, el := range cl.Elts {
+		if _, isKV := el.(*ast.KeyValueExpr); isKV {
+			return
+		}
+		v := x.eval(st, el)
+		idx := []Poly{PInt(int64(i))}
+		x.storeCell(st, id.Name, idx, v)
+		x.emit(st, &Event{Kind: "assign", Pos: el.Pos(), Stmt: s, Root: id.Name, Idx: idx, Old: PZero(), Val: v, Name: id.Name})
 	}
 }
 
